@@ -204,12 +204,8 @@ Proof. reflexivity. Qed.
 
 Lemma ig_bin c op a b : in_guard c (EBin op a b) = in_guard c a && in_guard c b.
 Proof. reflexivity. Qed.
-Lemma ig_uadd c a : in_guard c (EUn UAdd a) =
-  in_guard c a && match eval_const c a with
-                  | CVal (VInt _) => true | CVal (VFloat q) => qnormal q | CVal _ => false | _ => true end.
-Proof. reflexivity. Qed.
 Lemma ig_un c op a : in_guard c (EUn op a) = true -> in_guard c a = true.
-Proof. destruct op; cbn [in_guard]; intro H; try exact H. apply andb_true_iff in H. tauto. Qed.
+Proof. destruct op; cbn [in_guard]; intro H; exact H. Qed.
 Lemma ig_boolop c op vs : in_guard c (EBoolOp op vs) = g_all c vs.
 Proof. reflexivity. Qed.
 Lemma ig_cmp c l ops rs : in_guard c (ECompare l ops rs) = Nat.eqb (length ops) (length rs) && in_guard c l && g_all c rs.
@@ -407,9 +403,7 @@ Section Sound.
       apply bindC_val in He as (x & Ex & He). pose proof (ig_un _ _ _ Hg) as Hga.
       rewrite pe_un, (IHe x Hga Ex). cbn.
       destruct op; cbn in He.
-      + inversion He; subst. rewrite ig_uadd, Ex in Hg. apply andb_true_iff in Hg as [_ Hg].
-        destruct v; try discriminate; cbn; [reflexivity|].
-        unfold vfloat. rewrite (qnormal_eq _ Hg). reflexivity.
+      + apply lift_val. exact He.
       + apply lift_val. exact He.
       + inversion He. reflexivity.
       + discriminate.
@@ -488,9 +482,15 @@ Lemma minmax_single_refuted :
 Proof. exists e_max_single, (VList [VInt 3; VInt 1]). vm_compute. repeat split; congruence. Qed.
 
 Definition e_uadd_bool : pexpr := EUn UAdd (EBool true).                        (* +True *)
-Lemma uadd_identity_refuted :
-  exists e v, eval_const [] e = CVal v /\ peval [] e = Ok (VInt 1) /\ v <> VInt 1.
-Proof. exists e_uadd_bool, (VBool true). vm_compute. repeat split; congruence. Qed.
+(* unary plus is Python's: +True is 1 (replaces uadd_identity_refuted), +"ab" is a TypeError like Python's *)
+Lemma uadd_is_python :
+  (forall c a v, eval_const c a = CVal v -> eval_const c (EUn UAdd a) = lift (py_un UAdd v)) /\
+  eval_const [] e_uadd_bool = CVal (VInt 1) /\ peval [] e_uadd_bool = Ok (VInt 1) /\
+  eval_const [] (EUn UAdd (EStr [97;98])) = CFail KType /\ peval [] (EUn UAdd (EStr [97;98])) = Err TypeErr.
+Proof.
+  split; [|vm_compute; repeat split; reflexivity].
+  intros c a v H. rewrite ec_un. cbn [in_un]. rewrite H. reflexivity.
+Qed.
 
 (* len = 7 at run time (a user definition named like a builtin): the fold ignores it *)
 Lemma shadowed_builtin_refuted :
@@ -1067,10 +1067,10 @@ Section Kinds.
     destruct (IH _ _ _ H) as [I|I]; [left; rewrite I; apply orb_true_r|right; exact I].
   Qed.
 
-  Lemma un_step_kind op x k : un_step op x = CFail k -> k = KValue \/ (k = KType /\ op = USub).
+  Lemma un_step_kind op x k : un_step op x = CFail k -> k = KValue \/ (k = KType /\ (op = USub \/ op = UAdd)).
   Proof.
-    destruct op; cbn; intro Hf; try discriminate; [|inversion Hf; auto].
-    unfold py_un in Hf. destruct (as_num x) as [[|]|]; inversion Hf. auto.
+    destruct op; cbn; intro Hf; try discriminate; [| |inversion Hf; auto];
+      unfold py_un in Hf; destruct (as_num x) as [[|]|]; inversion Hf; auto.
   Qed.
 
   Lemma kinds_at : forall e, kd_at e.
@@ -1086,7 +1086,7 @@ Section Kinds.
       rewrite (apply_bin_kind _ _ _ _ e1 e2 Hf). reflexivity.
     - (* EUn *) rewrite ec_un in Hf. destruct (in_un op); [|inversion Hf; congruence].
       apply bindC_fail in Hf as [Hf|(x & _ & Hf)]; [rewrite (IHe _ Hf); apply orb_true_r|].
-      destruct (un_step_kind _ _ _ Hf) as [E|[E1 E2]]; [congruence|subst; reflexivity].
+      destruct (un_step_kind _ _ _ Hf) as [E|[E1 [E2|E2]]]; [congruence|subst; reflexivity|subst; reflexivity].
     - (* EBoolOp *) destruct op; [rewrite ec_and in Hf; rewrite (kd_evand _ H _ _ Hf)|rewrite ec_or in Hf; rewrite (kd_evor _ H _ _ Hf)]; apply orb_true_r.
     - (* ECompare *) rewrite ec_cmp in Hf. destruct ops; [inversion Hf; congruence|].
       apply bindC_fail in Hf as [Hf|(lv & _ & Hf)]; [rewrite (IHe _ Hf); cbn; rewrite orb_true_r; reflexivity|].
